@@ -200,6 +200,13 @@ MUTANTS = [
      r'(fn get_multiline\(&self, indent: usize, max: usize\) -> String \{\s*match \*self \{.*?)VTypeExt::Option\(ref v\) => format!\("\?\{\}", v\.get_multiline\(indent, max\)\),', r'\1VTypeExt::Option(ref v) => v.get_multiline(indent, max),', {"C10"}),
     ("fmt-colored-typedef-doc-dropped", "varlink_parser/src/format.rs",
      r"(impl FormatColored for IDL<'_> \{.*?fn get_multiline_colored.*?for t in self\.typedef_keys.*?)if !t\.doc\.is_empty\(\) \{", r"\1if false {", {"C10"}),
+    # ---- C18 additions (extension round) ----
+    ("bridge-readahead-echoed-to-client", "varlink-cli/src/proxy.rs",
+     r"service_writer\.write_all\(client_bufreader\.buffer\(\)\)\?;\s*service_writer\.flush\(\)\?;", "client_writer.write_all(client_bufreader.buffer())?;", {"C18"}),
+    ("bridge-readahead-not-flushed", "varlink-cli/src/proxy.rs",
+     r"(service_writer\.write_all\(client_bufreader\.buffer\(\)\)\?;)\s*service_writer\.flush\(\)\?;", r"\1", {"C18"}),
+    ("bridge-copy-flushes-only-short-reads", "varlink-cli/src/proxy.rs",
+     r"(writer\.write_all\(&buf\[\.\.len\]\)\?;\s*)writer\.flush\(\)\?;", r"\1if len < buf.len() { writer.flush()?; }", {"C18"}),
 ]
 
 
